@@ -158,7 +158,7 @@ def warm_replay(d):
         return True
 
 
-def campaign(ck, n, oracle, gen_kw=None, coq_lanes=1, label='WaveSim', coq_every=1, stress_every=0, line_level=False, glue=False):
+def campaign(ck, n, oracle, gen_kw=None, coq_lanes=1, label='WaveSim', coq_every=1, stress_every=0, stress_over=None, line_level=False, glue=False):
     """oracle(k, w) -> None | failure text.  Returns (fails, mismatching metas)."""
     rng = random.Random(ck.seed * 7919 + sum(map(ord, ck.pid)))
     fails, coq_cases, meta = [], [], []
@@ -169,6 +169,7 @@ def campaign(ck, n, oracle, gen_kw=None, coq_lanes=1, label='WaveSim', coq_every
         kw = dict(gen_kw or {})
         if stress_every and i % stress_every == stress_every - 1:
             kw.update(stress_kw(rng))
+            kw.update(stress_over or {})
             ck.count(0, 'glitch-stress')
         k = gen_wave_case(rng, **kw)
         try:
